@@ -5,7 +5,7 @@
 From Coq Require Import ZArith List Bool Ring Field QArith Permutation.
 Require Import MV.Lib.Base MV.C18.Ops MV.C18.Gen MV.C18.Model.
 Require Import MV.C18.Proofs_Herm MV.C18.Proofs_Opt MV.C18.Proofs_Cstr MV.C18.Proofs_Index MV.C18.Proofs_Main MV.C18.Proofs_Range MV.C18.Proofs_Gauge
-  MV.C18.Proofs_Quantum MV.C18.Proofs_GaugeExt MV.C18.Examples.
+  MV.C18.Proofs_Quantum MV.C18.Proofs_GaugeExt MV.C18.Proofs_Stage MV.C18.Examples.
 Open Scope Z_scope.
 
 (* FULL.  The connection Laplacians are Hermitian, L_ij = conj L_ji: on faces (Nabla^* D Nabla of laplacian_triangles) for
@@ -327,3 +327,17 @@ Theorem C18_gauge_harmonic_extension :
     (forall g z : cx T, unitc T O g -> norm_elem O (cmul O g z) = cmul O g (norm_elem O z)).
 Proof. exact gauge_extension_all. Qed.
 Print Assumptions C18_gauge_harmonic_extension.
+
+(* FULL.  The stage plumbing of FrameField.run() (generated from base.py; __call__ = run is checked by the translator):
+   run() executes initialize exactly when the field is not initialised and optimize exactly when it is not smoothed - two
+   independent tests - and sets both flags.  Hence after ANY sequence of calls to initialize / optimize / run on a fresh field
+   that contains a run(), whatever flags initialize and optimize set themselves, an optimisation (and an initialisation) has
+   been executed: `ff.initialize(); ff.run()` optimises.  Both initialize() set the initialized flag. *)
+Theorem C18_stage_protocols :
+  (forall (i s : bool) (l : list stage),
+      run_step (i, s, l) = (true, true, (l ++ (if i then nil else SInit :: nil) ++ (if s then nil else SOpt :: nil))%list)) /\
+  (forall (init_sets opt_sets : bool) (p : list call), In CRun p ->
+      In SOpt (st_stages (exec_calls init_sets opt_sets p)) /\ In SInit (st_stages (exec_calls init_sets opt_sets p))) /\
+  initf_sets_initialized = true /\ initv_sets_initialized = true.
+Proof. exact stage_all. Qed.
+Print Assumptions C18_stage_protocols.
